@@ -116,7 +116,9 @@ pub fn tx_line(tx: &Transaction, txs: &HashMap<Txid, (Transaction, u32)>) -> Str
       e.pushnum,
       e.stutter,
       p.hidden(),
-      ord::verif::inscription_has_gallery(p),
+      // the real decoder may panic on adversarial CBOR (then the indexer will too, and the
+      // update's outcome line reports it); the request line must still be written
+      common::catch(std::panic::AssertUnwindSafe(|| ord::verif::inscription_has_gallery(p))).unwrap_or(false),
     ]
     .iter()
     .map(|b| on(*b))
